@@ -19,7 +19,8 @@ RULE = ("case = (declaration, context); expected entity keys known by constructi
         "non-trivial = every case; distinct by rendered DDL")
 ASSUMPTIONS = ["extra keys in an entity are tolerated; the named keys must match exactly"]
 
-NAMES = ["mood", "Mood", '"Dq"']
+NAMES = ["mood", "Mood", '"Dq"', "schema", "key", "type", "database", "index", "comment", "domain"]
+KWNAMES = NAMES[3:]  # entity names that coincide with grammar keywords (not used as a column TYPE: the statement does not cover that)
 SCH = [None, "s1", '"S2"']
 
 
@@ -99,7 +100,7 @@ def gen_cases(tier):
         cases.append({"d": i, "ctx": "alone"})
         cases.append({"d": i, "ctx": "before-table"})
         cases.append({"d": i, "ctx": "after-table"})
-        if d.get("use"):
+        if d.get("use") and not any(d["use"] == k or d["use"].endswith("." + k) for k in KWNAMES):
             cases.append({"d": i, "ctx": "used"})
     return cases
 
